@@ -1,16 +1,64 @@
 """C03 — optimize() terminates within the evaluation budget and counts honestly."""
-from harness import runlevel as R, skel as S
+from harness import budget as B, runlevel as R, skel as S
 
-PROPS = "Props/C03.v"
-THEOREMS = ["C03_terminates", "C03_budget", "C03_maxiter", "C03_func_count_exact", "C03_msg_truthful", "C03_finished_is_final"]
+PROPS = ["Props/C03.v", "Props/C03budget.v"]
+THEOREMS = ["C03_terminates", "C03_budget", "C03_maxiter", "C03_func_count_exact", "C03_msg_truthful", "C03_finished_is_final",
+            "C03_budget_model_is_source", "C03_skeleton_reads_the_budget", "C03_total_calls_within_user_budget", "C03_reserve_exact",
+            "C03_det_reserves_nothing", "C03_noise_level_rule", "C03_design_size_bounds", "C03_budget_sufficient_det",
+            "C03_budget_sufficient_noisy", "C03_budget_message_in_user_terms", "C05_resampling_spends_the_reserve",
+            "C03_design_exceeds_budget_refuted", "C03_negative_nfs_exceeds_budget_refuted", "C03_budget_message_unspent_reserve_refuted"]
+TRANSLATORS = ["budget"]
 LEVEL = "proof"
 RULE = ("real BADS runs over a panel (D 1-4; deterministic/auto/declared/specified noise; boxes sym/tight/log/unbounded/mixed; "
         "constraints; budgets from the design size up; max_iter 1-5; tol_mesh large; complete_poll; accelerate_mesh) recorded at the seams "
-        "and compared, loop iteration by loop iteration, with the skeleton model; non-trivial = a run with >= 1 search and >= 1 poll")
+        "and compared, loop iteration by loop iteration, with the skeleton model; non-trivial = a run with >= 1 search and >= 1 poll. "
+        "Budget end to end: (a) the arithmetic of _init_mesh_ / init_sobol / _init_optimization_ / the loop's readers regenerated from the source "
+        "(translate/budget.py) and proved equal to Model/Budget.v; (b) real _init_optimization_ (GP trainer stubbed) on generated user options "
+        "(budgets around the design sizes, powers of two and the 20/21/33/34 thresholds; every noise mode; constraints and tight boxes that make the "
+        "filter drop design rows; budget 0/1/negative, fun_eval_start 0, negative noise_final_samples) vs the model and vs the translated IR; "
+        "(c) for every run of the panel the recorded (initial calls, record flags, design rows, level, fun_eval_start, loop budget, reserve, "
+        "tol_stall_iters) vs the model, and equal to the values the skeleton tie uses; tight stochastic budgets (design = budget, reserve clamped, "
+        "reserve 0, run stopped by the budget inside a poll) are part of the panel")
 TRUSTED = ["Coq 8.16.1 kernel + vm_compute", "hand-written model Model/Skeleton.v of BADS.optimize(), tied per loop iteration to real runs through the guarded probe (PYBADS_VERIF=1) and outside wrappers (harness/trace.py, harness/skel.py)",
            "the oracle abstraction: GP/ES/target answers are universally quantified in the theorems; liveness of the opaque engines themselves (a GP fit that never returns) is not modelled",
-           "integer-valued search_n_try / max_iter / max_fun_evals (non-integer user values are outside the model)"]
-ASSUMPTIONS = ["max_iter >= 1; options are integer valued where the code compares them with ==; the target and the GP engine return"]
+           "integer-valued search_n_try / max_iter / max_fun_evals / fun_eval_start / noise_final_samples (non-integer user values are outside the model)",
+           "translate/budget.py (fail-closed ast whitelist over bads.py and init_sobol.py; validated on every run: its IR composed in Python against the real _init_optimization_, "
+           "the log2 expression evaluated by NumPy against Z.log2_up on -3..3000 and 2^k-1,2^k,2^k+1 up to 2^48+1)",
+           "SciPy Sobol.random_base2(m) returns 2^m rows; contraints_check only removes rows (its output size is an oracle input, 0 <= survivors <= rows is checked on every recorded call)",
+           "the component tie stubs pybads.bads.bads.init_and_train_gp from outside (the GP trainer does not touch the budget; the run-level tie uses the unstubbed code)"]
+ASSUMPTIONS = ["max_iter >= 1; options are integer valued where the code compares them with ==; the target and the GP engine return",
+               "the capped fun_eval_start is at most 2^48 (int(np.ceil(np.log2(x))) = Z.log2_up x fails from x = 2^49+1 on: binary64 log2 rounds down; a design of that size cannot be evaluated)",
+               "C03_total_calls_within_user_budget: the user's max_fun_evals is at least the number of initial calls (the property's own precondition) and noise_final_samples >= 0"]
+EXPLANATION = ("Outside the precondition (witnesses replayed on the real code on every run): the initial design is NOT capped by max_fun_evals - 1 "
+               "(the cap is applied before rounding up to a power of two: declared noise, max_fun_evals=25 -> 33 initial calls, reserve -8, loop budget 33); "
+               "a negative noise_final_samples is accepted and added to the loop budget (max_fun_evals=40, noise_final_samples=-10 -> 50 calls). "
+               "Known finding (message clause): a stochastic run stopped by the budget before its first poll iteration completes reports "
+               "'reached max_fun_evals' with fewer calls than max_fun_evals - the reserve is never spent.")
+
+_W = dict(D=2, target="sphere", box="sym", noise="declared", sigma=0.3)
+W_DESIGN = dict(_W, options=dict(max_fun_evals=25), seed=3)
+W_NEGNFS = dict(_W, options=dict(max_fun_evals=40, noise_final_samples=-10), seed=3)
+W_MSG = dict(_W, options=dict(max_fun_evals=36), seed=3)
+# inputs of the Coq witnesses wit_design / wit_negnfs / wit_msg (Proofs/BudgetProofs.v)
+W_INPUTS = {"design": dict(D=2, mfe=25, fes=2, nfs=10, stall=5, level0=1, differ=False, survive=32),
+            "negnfs": dict(D=2, mfe=40, fes=2, nfs=-10, stall=5, level0=1, differ=False, survive=32),
+            "msg": dict(D=2, mfe=36, fes=2, nfs=10, stall=5, level0=1, differ=False, survive=32)}
+
+
+def budget_specs(seed):
+    """stochastic / deterministic runs whose budget squeezes the initial design and the reserve"""
+    sd = seed * 10
+    return [
+        dict(D=2, target="sphere", box="sym", noise="declared", sigma=0.3, options=dict(max_fun_evals=33), seed=sd + 21),                       # design = budget, reserve 0
+        dict(D=2, target="sphere", box="sym", noise="auto", sigma=0.3, options=dict(max_fun_evals=37), seed=sd + 22),                           # reserve clamped to 3
+        dict(D=2, target="abs", box="sym", noise="declared", sigma=0.3, options=dict(max_fun_evals=52, noise_final_samples=4), seed=sd + 23),   # stopped by the budget, re-sampling runs
+        dict(D=3, target="sphere", box="sym", noise="specified", sigma=0.3, options=dict(max_fun_evals=60, noise_final_samples=6), seed=sd + 24),
+        dict(D=2, target="sphere", box="sym", noise="declared", sigma=0.3, cons="ball", options=dict(max_fun_evals=48, noise_final_samples=5, fun_eval_start=9), seed=sd + 25),
+        dict(D=2, target="sphere", box="sym", noise="det", options=dict(max_fun_evals=6), seed=sd + 26),                                        # design = budget (D power of two: 4 rows)
+        dict(D=4, target="sphere", box="sym", noise="det", options=dict(max_fun_evals=30, fun_eval_start=9), seed=sd + 27),                     # 16 rows
+        dict(D=3, target="abs", box="sym", noise="det", options=dict(max_fun_evals=24, fun_eval_start=0), seed=sd + 28),                        # no design
+        dict(D=1, target="abs", box="sym", noise="declared", sigma=0.2, options=dict(max_fun_evals=50, noise_final_samples=10), seed=sd + 29),
+    ]
 
 
 def specs_for(ctx):
@@ -23,22 +71,62 @@ def specs_for(ctx):
         dict(D=2, target="sphere", box="sym", noise="declared", sigma=0.4, options=dict(max_fun_evals=45, noise_final_samples=10), seed=ctx.seed * 10 + 5),
         dict(D=1, target="sphere", box="sym", noise="det", options=dict(max_fun_evals=30, search_n_try=1), seed=ctx.seed * 10 + 6),
     ]
-    return specs + extra + S.panel_nondefault(ctx.seed)
+    return specs + extra + S.panel_nondefault(ctx.seed) + budget_specs(ctx.seed) + [W_DESIGN, W_NEGNFS, W_MSG]
+
+
+def witnesses(ctx, broken, out):
+    """replay the three refutation witnesses on the real code (they are part of the panel, hence also compared with both models)"""
+    by = {repr(tr["spec"]): tr for tr, _ in out if "spec" in tr}
+    res = {}
+    for name, spec in (("design", W_DESIGN), ("negnfs", W_NEGNFS), ("msg", W_MSG)):
+        tr = by.get(repr(spec))
+        o = B.obs_of_trace(tr) if tr is not None and "harness_exc" not in tr and "construct_exc" not in tr else None
+        if o is None or "result" not in tr:
+            res[name] = (False, "witness run did not complete: %r" % ((tr or {}).get("exc"),))
+            continue
+        i, a, n = B.inputs_of(o), o["after"], len(tr["calls"])
+        if i != W_INPUTS[name]:
+            res[name] = (False, f"the real run's inputs {i} are not the Coq witness {W_INPUTS[name]}")
+        elif name == "design":
+            res[name] = (o["calls"] == 33 and a["noise_final_samples"] == -8 and a["max_fun_evals"] == 33 and n == 33,
+                         f"initial calls {o['calls']}, reserve {a['noise_final_samples']}, loop budget {a['max_fun_evals']}, total {n}")
+        elif name == "negnfs":
+            res[name] = (o["calls"] == 33 and a["max_fun_evals"] == 50 and n > 40, f"loop budget {a['max_fun_evals']}, total calls {n} for max_fun_evals=40")
+        else:
+            res[name] = (o["calls"] == 33 and a["noise_final_samples"] == 3 and tr["result"]["msg_id"] == 1 and n == 33 and tr["result"]["func_count"] == 33,
+                         f"reserve {a['noise_final_samples']}, message id {tr['result']['msg_id']}, total calls {n} for max_fun_evals=36")
+    for name, (ok, detail) in res.items():
+        if not ctx.oblige(f"witness:{name}", "refutation", ok, detail):
+            broken.append((f"witness:{name}", f"refutation witness no longer reproduces on the real code (model no longer faithful): {detail}"))
 
 
 def tie(ctx, broken):
     out = R.tie_skeleton(ctx, broken, [(s, None) for s in specs_for(ctx)], "c03")
     R.count_runs(ctx, out, lambda tr, P: P is not None and any(e[0] == "search_begin" for e in tr["events"]) and any(e[0] == "poll_begin" for e in tr["events"]))
     R.apply_monitor(ctx, out, R.mon_c03)
+    R.apply_monitor(ctx, out, R.mon_c03_unspent)          # open known finding, reported separately so that it hides nothing
+    B.run_level_tie(ctx, broken, out, "c03")
+    witnesses(ctx, broken, out)
+    B.component_tie(ctx, broken, 300 if ctx.quick else 3000)
 
 
 def search(ctx, broken):
     if R.truncate_search(ctx, R.mon_c03):
         return True
-    specs = S.panel("thorough", ctx.seed + 17)[:40]
+    if B.search_init(ctx):
+        return True
+    sd = ctx.seed + 17
+    tight = []
+    for k, (D, noise, mfe, nfs) in enumerate([(2, "declared", 40, 10), (2, "auto", 44, 10), (2, "declared", 50, 3), (1, "declared", 42, 10), (3, "specified", 48, 10),
+                                               (2, "declared", 56, 10), (2, "det", 12, 10), (3, "det", 20, 10), (2, "declared", 64, 2), (2, "auto", 60, 10)]):
+        tight.append(dict(D=D, target="sphere", box="sym", noise=noise, sigma=0.3, options=dict(max_fun_evals=mfe, noise_final_samples=nfs), seed=sd * 10 + k))
+    specs = tight + S.panel("thorough", sd)[:40]
     out = [(tr, None) for tr in S.traces([(s, None) for s in specs], "c03s")]
     return R.apply_monitor(ctx, out, R.mon_c03) > 0
 
 
 def replay(ctx, rp):
-    return R.generic_replay(ctx, rp, [R.mon_c03])
+    r = rp["replay"]
+    if r.get("kind") == "init":
+        return B.replay_init(r["spec"])
+    return R.generic_replay(ctx, rp, [R.mon_c03, R.mon_c03_unspent])
